@@ -207,6 +207,10 @@ func (vc *VC) instr(fr *Frame, st *State, ins ssa.Instruction) {
 		vc.runDefers(fr, st, x)
 	case *ssa.Go:
 		vc.note("go statement dropped (sequential semantics only): " + x.Call.Value.Name())
+		if c := x.Call.StaticCallee(); c != nil && isEffectFree(c.String()) {
+			// a goroutine running a function on the effect-free list touches nothing the contracts speak about
+			break
+		}
 		vc.havocAll(st)
 	case *ssa.Return:
 		var rs []Val
